@@ -237,8 +237,12 @@ func ZZ_C15_Resize() {
 
 // ZZ_C15_Par: schedules.
 func ZZ_C15_Par() {
-	m := zzNewMap(0)
 	sc := vParam("scenario")
+	if sc == 4 {
+		zzC15ParallelResize()
+		return
+	}
+	m := zzNewMap(0)
 	ks := zzColliding(m, 7)
 	for _, k := range ks[:vParam("prefill")] {
 		zzPut(m, k, k+1)
@@ -386,4 +390,35 @@ func ZZ_C15_SparseResize() {
 		m.resize(t1, mapShrinkHint)
 	}
 	zzAudit(m, model, ks, "c15.sparse.nothing_lost_across_resize")
+}
+
+
+// zzC15ParallelResize: a table of 128 buckets (large enough for the resize to split the copy over goroutines, the
+// copyBucketWithDestLock path) is grown while another thread inserts a key into a bucket chain that is still empty:
+// the insert either lands in the old table before its bucket is copied (and is copied), or waits for the resize and
+// lands in the new table — it is never lost, and nothing else is.
+func zzC15ParallelResize() {
+	m := zzNewMap(64 * nodesPerMapBucket)
+	t0 := m.table.Load()
+	vAssert(len(t0.buckets) == 128, "c15.parresize.table_len")
+	pre := []int{1, 2, 3}
+	for _, k := range pre {
+		zzPut(m, k, k+1)
+	}
+	newKey := 100001
+	applied := 0
+	vPar(func() {
+		m.Compute(newKey, func(old *zzNode) *zzNode { applied++; return &zzNode{newKey, 9} })
+	}, func() { m.resize(t0, mapGrowHint) })
+	vAssert(applied == 1, "c15.parresize.update_function_exactly_once")
+	vAssert(len(m.table.Load().buckets) == 256, "c15.parresize.grew")
+	n := m.Get(newKey)
+	vAssert(n != nil && n.v == 9, "c15.parresize.concurrent_insert_survives_the_resize")
+	for _, k := range pre {
+		vAssert(m.Get(k) != nil && m.Get(k).v == k+1, "c15.parresize.nothing_lost_across_resize")
+	}
+	vAssert(m.Size() == len(pre)+1, "c15.parresize.size_equals_keys")
+	cnt := 0
+	m.Range(func(x *zzNode) bool { cnt++; return true })
+	vAssert(cnt == len(pre)+1, "c15.parresize.range_yields_every_key")
 }
